@@ -5,7 +5,7 @@
 // Verification contracts (comments only; read by /verif/govc, never compiled into charon).
 package aggsigdb
 
-//@ pure cancelled core.SignedData.Clone core.SignedData.MarshalJSON core.SyncSubcommitteeIndex
+//@ pure cancelled core.SignedData.Clone core.SignedData.MarshalJSON json.Marshaler.MarshalJSON core.SyncSubcommitteeIndex
 
 //@ spec func nlw(qs []readQuery, m map[memDBKey]core.SignedData) bool = forall(i, 0, len(qs), !has(m, qs[i].memDBKey))
 
@@ -78,4 +78,19 @@ package aggsigdb
 
 //@ func (db *MemDB) Await
 //@ props C17 C18
-//@ ensures r1 == nil ==> ncalls(value.Clone) == 1
+//@ callreq send db.queries: a1.memDBKey == memDBKey{duty: duty, pubKey: pubKey, subcommIdx: subcommIdx} && a1.response == response
+//@ ensures r1 == nil ==> ncalls(value.Clone) == 1 && ncalls("send db.queries") == 1
+
+// every entry of the set is written under its own validator key (and sync sub-committee) of this duty
+//@ func (db *MemDB) Store
+//@ props C17
+//@ callreq db.store: a2.duty == duty && a2.pubKey == pubKey && a2.subcommIdx == res(0, core.SyncSubcommitteeIndex(duty.Type, data)) && a3 == data && has(set, pubKey) && set[pubKey] == data
+//@ ensures result == nil ==> ncalls(db.store) == len(set)
+//@ loop 1 invariant ncalls(db.store) == $i
+
+// re-store equality is equality of the JSON encodings of the two values
+//@ pure bytes.Equal
+//@ func dataEqual
+//@ props C17
+//@ ensures r1 == nil ==> r0 == bytes.Equal(res(0, x.MarshalJSON()), res(0, y.MarshalJSON()))
+//@ ensures r1 == nil ==> res(1, x.MarshalJSON()) == nil && res(1, y.MarshalJSON()) == nil
